@@ -17,6 +17,14 @@ CHECKS = {
             "concrete (15 names), only the byte length is symbolic.", "DESIGN.md 5 (C19)"),
 }
 
+CHECKS["C13"] = (True, MC, "symbolic execution of the real front-end passes (symx + z3) over symbolic extents and literal indices; CrossHair (symbolic str) for swizzle masks",
+    "Bounded symbolic check: ComputeTypes, ValidateArrayAccessType and ValidateArrayOutOfBoundsAccess run on ASTs built through the public "
+    "constructors with symbolic array extents (rank 1-3, unbounded), vector sizes, matrix sizes and literal index values; z3 decides per path "
+    "accept <=> every index inside the dimension it selects. Swizzle masks: CrossHair explores ValidateSwizzleMask and the pass wiring on a symbolic "
+    "str (length 1-3 quick / 1-4 thorough) per vector size, only 'Confirmed over all paths' counts; an exhaustive end-to-end mask enumeration and the "
+    "index-type / literal-spelling table are concrete gates, labelled as such in the evidence.",
+    "Trusts z3, CrossHair's str model, the proxy model of ints. Non-square matrices (not spellable) are outside the claim.", "DESIGN.md 5 (C13)")
+
 NOT_YET = "check not built yet in this round (see DESIGN.md status); nothing is claimed"
 NA = {
     "C18": "quantifies over hash seeds, processes and compilation histories: none of these is a value flowing through the code, so there is no assertion over symbolic variables for a solver to decide (DESIGN.md section 6)",
